@@ -155,17 +155,38 @@ def pinv_stub(T, **k):
     return out.view(SymNd)
 
 
-def run_miso(W, which, q, G, order=None, illcond=False, int_first=False):
+def _prior_gram(W, q):
+    """spectral matrix of an EARLIER, unrelated data set (fixed rational Cholesky factor)"""
+    n = q + 1
+    L0 = [[0] * n for _ in range(n)]
+    for i in range(n):
+        for j in range(i + 1):
+            if i == j:
+                L0[i][j] = SR(z3.RealVal(i + 2)) if W.sym else float(i + 2)
+            else:
+                L0[i][j] = SC(SR(z3.RealVal(i - j)), SR(z3.RealVal(j + 1))) if W.sym else complex(i - j, j + 1)
+    return gram(W, L0)
+
+
+def run_miso(W, which, q, G, order=None, illcond=False, int_first=False, prior=False):
     import speckit.systems as S
     ins, out, chan = _channels(q, int_first)
     order = list(order) if order is not None else list(range(q))
-    ltf = make_ltf(W, G, q, chan)
+    ltf_now = make_ltf(W, G, q, chan)
+    cur = [make_ltf(W, _prior_gram(W, q), q, chan) if prior else ltf_now]
+
+    def ltf(*a, **k):
+        return cur[0](*a, **k)
     fn = {"numeric": "MISO_numeric_optimal_spectral_analysis", "analytic": "MISO_analytic_optimal_spectral_analysis"}[which]
     if W.sym:
         from symx import shim as _sh
         NP = NumpyShim(linalg_solve=lambda T, Sv: cramer_solve(T, Sv), linalg_cond=lambda T: (1e13 if illcond else 1.0), linalg_pinv=pinv_stub, allclose=lambda a, b, **k: bool(rnp.allclose(a, b, **k)))
         Gm = clone_module(S, dict(np=NP, ltf=ltf))
         W.run.poly_div = True
+        if prior:
+            # call history: the same solver ran on another data set of the same shape earlier in the process
+            Gm[fn]([ins[i] for i in order], out, 1.0)
+            cur[0] = ltf_now
         del _sh.CSQRT_ARGS[:]
         f, asd = Gm[fn]([ins[i] for i in order], out, 1.0)
         W.last_radicand = _sh.CSQRT_ARGS[-1] if _sh.CSQRT_ARGS else None
@@ -173,6 +194,9 @@ def run_miso(W, which, q, G, order=None, illcond=False, int_first=False):
         old = S.ltf
         S.ltf = ltf
         try:
+            if prior:
+                getattr(S, fn)([ins[i] for i in order], out, 1.0)
+                cur[0] = ltf_now
             f, asd = getattr(S, fn)([ins[i] for i in order], out, 1.0)
         finally:
             S.ltf = old
@@ -193,7 +217,17 @@ def ob_miso(W, which, q, case):
         if W.sym and z is not None:
             W.lemma(tag + "/radicand is real", W.eq(z.imag, 0))
             W.lemma(tag + "/radicand = Schur complement", W.eq(z.real, pivot2))
-    if case in ("residual", "exact-combination"):
+    if case == "residual-after-prior-call":
+        if W.sym:
+            # a box of concrete generic values to look for a counterexample in when the full (nonlinear) query is inconclusive
+            W.nice = [tz(L[i][i]) == z3.RealVal(i + 1) / 2 for i in range(q + 1)]
+            for i in range(q + 1):
+                for j in range(i):
+                    W.nice += [tz(L[i][j].re) == z3.RealVal(2 * i + j + 1) / 4, tz(L[i][j].im) == z3.RealVal(i - 2 * j - 1) / 8]
+        asd = run_miso(W, which, q, G, prior=True)
+        radicand_lemmas("residual")
+        W.goal("second call in the process: residual^2 = Schur complement of ITS data", W.eq(asd * asd, pivot2))
+    elif case in ("residual", "exact-combination"):
         asd = run_miso(W, which, q, G)
         radicand_lemmas("residual")
         W.goal("residual^2 = Schur complement (last Cholesky pivot^2)", W.eq(asd * asd, pivot2))
@@ -304,7 +338,7 @@ def obligations(tier):
     to = 60 if tier == "quick" else 600
     for q in qs:
         for which in ("numeric", "analytic"):
-            for case in ("residual", "exact-combination"):
+            for case in ("residual", "exact-combination") + (("residual-after-prior-call",) if q <= 2 else ()):
                 obs.append({"name": "%s/q%d/%s" % (which, q, case), "fn": "ob_miso", "params": {"which": which, "q": q, "case": case}, "fork": True, "max_paths": 64, "timeout": to, "weight": q ** 3})
             if q >= 2:
                 perms = [p for p in itertools.permutations(range(q)) if list(p) != list(range(q))]
